@@ -24,7 +24,8 @@
         Stream::poll_next                the receiver's poll_next                                                    LPoll s
         #[derive(Clone)]                 clones the receiver (same cursor) and the rule; NOTHING is counted          LClone s s2
         Drop for Inner                   if let Some(rule) = match_rule.take() { conn.queue_remove_match(rule) }     LDrop s
-        AsyncDrop::async_drop(mut self)  rule.take(); conn.remove_match(rule).await; then self is dropped             LDropStart s ..
+        AsyncDrop::async_drop(mut self)  let rule = match_rule.take(); drop(self); conn.remove_match(rule).await      LDropStart s, then
+                                         (since fix 90a1ccff the receiver is released BEFORE remove_match)            LTaskSubs n / LTaskSender n
         set_max_queued(n)                set_capacity(n) if n > capacity                                             LSetCap s n
      zbus/src/connection/socket_reader.rs
         SocketReader::receive_msg        loop { let msg = self.read_socket().await;                                  LRead
@@ -374,10 +375,11 @@ Definition step (l : label) (s : sys) : option sys :=
       end
   | LDropStart sid =>
       match lookup (streams s) sid, lookup (drops s) sid with
-      | Some st, None => match s_rule st with
-                         | Some _ => Some (with_drops s (put (drops s) sid R0))
-                         | None => Some (bury s sid st)
-                         end
+      | Some st, None =>
+          (* the receiver goes first (drop(self)), then remove_match(rule) runs — the same call that Drop spawns as a task;
+             who polls it (the async_drop future or the executor) makes no difference to what it does *)
+          let s1 := bury s sid st in
+          Some (match s_rule st with Some r => with_tasks s1 (tasks s1 ++ [(r, R0)]) | None => s1 end)
       | _, _ => None
       end
   | LDropSubs sid =>
